@@ -249,8 +249,8 @@ def run_case(case, ctx):
     exp_rows, exp_calls, kept = [], [], 0
     for r in mrows:
         key = tuple(r[c] for c in (prev['on'] if prev else []))
-        args = tuple(r[q] if q in r else case['fdefaults'][q] for q in params)
         pv = prev_by_key.get(key) if prev else None
+        args = tuple((pv[0] if (q == 'data' and case.get('incremental') and pv is not None) else r[q] if q in r else case['fdefaults'][q]) for q in params)
         if pv is not None and pv[1] in ('past', 'yesterday'):
             val = pv[0]; kept += 1
         else:
@@ -287,6 +287,8 @@ def run_case(case, ctx):
         ctx.cls('with_prev_data')
     if case.get('defaults') is not None or case['fdefaults']:
         ctx.cls('with_defaults')
+    if case.get('incremental'):
+        ctx.cls('incremental_function_fed_its_previous_output')
 
 
 def gen_case(rng):
@@ -384,6 +386,15 @@ def gen_case(rng):
         for k in (pool if whole else rng.sample(pool, rng.randint(0, len(pool)))):
             rows.append(dict(k, v=(None if rng.random() < 0.15 else 'old%s' % ''.join(str(k[c]) for c in on)), exp=rng.choice(['absent', 'past', 'past', 'future', 'none', 'today', 'yesterday'])))
         case['prev'] = {'on': on, 'rows': rows}
+        if rng.random() < 0.3 and 'data' not in case['params'] and case['defaults'] is None and case.get('output_is_input') is None and not case.get('kwonly_defaults'):
+            # an incremental function: it takes its own previous output (`data`) and declares what it starts from as that parameter's default;
+            # a key the previous result lacks is computed from that default, a key it has (and that is due) from its previous value
+            case['incremental'] = True
+            case['params'] = list(case['params']) + ['data']
+            case['fdefaults'] = dict(case['fdefaults'], data='start')
+            for r in rows:
+                if r['v'] is None:
+                    r['v'] = 'old%s' % ''.join(str(r[c]) for c in on)
         if rows and whole and rng.random() < 0.7:
             case['expiry_scalar'] = rng.choice(['past', 'future', 'none'])
             for r in rows:
